@@ -44,6 +44,18 @@ CLAIMED = {
         "homogeneity (degree) analysis and sign analysis of extracted rational constraint templates",
         "other",
     ),
+    "C10": (
+        "Proof for all parameter values (exact rational arithmetic): the three multiplier tables are closed under the "
+        "total / each-month / per-month forms with identical multipliers; get_conversion returns to/from of the matching "
+        "nutrient table for every ordered pair (873); hence round trip = identity and path independence for all pairs and "
+        "triples (also checked explicitly); the requirement converts to 100 percent, to the daily requirement per person "
+        "and to population/1e9 billion people fed (all three nutrients, effective-kcal variants included); in_units and "
+        "its five wrappers preserve the label form and scale each lane by its own factor.",
+        "Real arithmetic (float rounding of the running code is outside the claim); parameters non-zero. Trusted: CPython "
+        "ast, allfedsa.rat polynomial identity, allfedsa.symx evaluation rules for the straight-line fragment used.",
+        "symbolic evaluation of the conversion code into rational functions + polynomial identity checking",
+        "proof",
+    ),
 }
 
 NOT_APPLICABLE = {
